@@ -1,3 +1,300 @@
-"""Move-table agreement rules (C04.R4, C09.R1)."""
-def add_obligations(res, tree, rule, only_mask_tables=False):
-    return 0
+"""Move-table agreement rules (C04.R4, C09.R1): every encoding of an environment's
+action -> displacement table agrees with its siblings and with the direction names used in the code.
+
+Tables are literal constants of the analysed tree; they are folded by a small evaluator of the literal
+sub-language (lists, ints, unary minus, names of other constants, jnp.array(<literal>)).  No repository
+code runs."""
+from __future__ import annotations
+
+import ast
+from typing import Dict, List, Optional, Tuple
+
+from ..loader import AnalysisError, Tree
+
+E = "jumanji.environments."
+CONVENTION = {"up": (-1, 0), "down": (1, 0), "left": (0, -1), "right": (0, 1), "noop": (0, 0), "no_op": (0, 0), "load": (0, 0)}
+
+
+def fold(tree: Tree, m, e: ast.expr, depth: int = 0):
+    """Literal value of a constant expression, or None."""
+    if depth > 8:
+        return None
+    if isinstance(e, ast.Constant) and isinstance(e.value, (int, float)) and not isinstance(e.value, bool):
+        return e.value
+    if isinstance(e, ast.UnaryOp) and isinstance(e.op, ast.USub):
+        v = fold(tree, m, e.operand, depth + 1)
+        return -v if isinstance(v, (int, float)) else None
+    if isinstance(e, (ast.List, ast.Tuple)):
+        out = [fold(tree, m, x, depth + 1) for x in e.elts]
+        return None if any(x is None for x in out) else out
+    if isinstance(e, ast.Call):
+        q = tree.resolve_expr(m, e.func) or ""
+        if q.split(".")[-1] in ("array", "asarray") and (q.startswith("jax.numpy") or q.startswith("numpy")) and e.args:
+            return fold(tree, m, e.args[0], depth + 1)
+        return None
+    if isinstance(e, (ast.Name, ast.Attribute)):
+        q = tree.resolve_expr(m, e)
+        if q:
+            r = tree.lookup(q)
+            if r and r[0] == "const":
+                return fold(tree, r[1][0], r[1][1], depth + 1)
+            if r and r[0] == "classattr":
+                return fold(tree, r[1][0].module, r[1][1], depth + 1)
+    return None
+
+
+def const_table(tree: Tree, qual: str):
+    r = tree.lookup(qual)
+    if not r or r[0] not in ("const", "classattr"):
+        raise AnalysisError(f"table anchor {qual} not found")
+    m = r[1][0] if r[0] == "const" else r[1][0].module
+    v = fold(tree, m, r[1][1])
+    if v is None:
+        raise AnalysisError(f"table {qual} is not a foldable literal")
+    return v, f"{m.relpath}:{r[1][1].lineno}"
+
+
+def enum_members(tree: Tree, qual: str) -> Dict[str, int]:
+    ci = tree.classes.get(qual)
+    if ci is None:
+        raise AnalysisError(f"enum anchor {qual} not found")
+    out = {}
+    for n, e in ci.class_attrs.items():
+        v = fold(tree, ci.module, e)
+        if isinstance(v, int):
+            out[n] = v
+    return out
+
+
+def offsets(elts: List[ast.expr]) -> Optional[List[Tuple[str, str]]]:
+    """[(base text, signed offset text)] of tuple/list elements of the form base, base + k, base - k."""
+    out = []
+    for x in elts:
+        if not (isinstance(x, ast.BinOp) and isinstance(x.op, (ast.Add, ast.Sub))):
+            # clamped forms such as jnp.max(jnp.array([0, x - 1])): take the single inner `name +/- k`
+            inner = [b for b in ast.walk(x) if isinstance(b, ast.BinOp) and isinstance(b.op, (ast.Add, ast.Sub))
+                     and isinstance(b.left, (ast.Name, ast.Attribute, ast.Subscript)) and isinstance(b.right, (ast.Constant, ast.Name))
+                     and not (isinstance(b.left, ast.Name) and isinstance(b.right, ast.Constant) and b.left.id.startswith("grid"))]
+            inner = [b for b in inner if not any(isinstance(n, ast.Name) and n.id.startswith("grid") for n in ast.walk(b))]
+            if len(inner) == 1:
+                x = inner[0]
+        if isinstance(x, ast.BinOp) and isinstance(x.op, (ast.Add, ast.Sub)):
+            sign = "+" if isinstance(x.op, ast.Add) else "-"
+            out.append((ast.unparse(x.left), sign + ast.unparse(x.right)))
+        else:
+            out.append((ast.unparse(x), "0"))
+    return out
+
+
+def delta_int(off: str) -> Optional[int]:
+    try:
+        return int(off.replace("+", ""))
+    except ValueError:
+        return None
+
+
+def lambda_elts(lam: ast.Lambda) -> Optional[List[ast.expr]]:
+    b = lam.body
+    if isinstance(b, (ast.Tuple, ast.List)):
+        return list(b.elts)
+    if isinstance(b, ast.Call) and b.args and isinstance(b.args[0], (ast.List, ast.Tuple)):
+        return list(b.args[0].elts)
+    if isinstance(b, ast.Call) and b.keywords and not b.args:
+        return [k.value for k in b.keywords]
+    if isinstance(b, ast.Call) and b.args and not b.keywords:
+        return list(b.args)
+    return None
+
+
+def named_lambdas(fn_node: ast.AST) -> Dict[str, ast.Lambda]:
+    out = {}
+    for st in ast.walk(fn_node):
+        if isinstance(st, ast.Assign) and len(st.targets) == 1 and isinstance(st.targets[0], ast.Name) and isinstance(st.value, ast.Lambda):
+            out[st.targets[0].id] = st.value
+    return out
+
+
+def switch_lists(fn_node: ast.AST) -> List[List[ast.expr]]:
+    out = []
+    for n in ast.walk(fn_node):
+        if isinstance(n, ast.Call) and ast.unparse(n.func).endswith("lax.switch") and len(n.args) >= 2 and isinstance(n.args[1], (ast.List, ast.Tuple)):
+            out.append(list(n.args[1].elts))
+    return out
+
+
+def direction_of(name: str) -> Optional[str]:
+    n = name.lower()
+    for d in ("noop", "no_op", "left", "right", "down", "up", "load"):
+        if n == d or n.endswith("_" + d) or n.startswith(d + "_") or n == "move_" + d:
+            return d
+    return None
+
+
+def add_obligations(res, tree: Tree, rule: str, only_mask_tables: bool = False) -> int:
+    n = 0
+
+    def ob(site, fn, construct, ok, detail):
+        nonlocal n
+        res.add(rule, site, fn, construct, ok, detail)
+        n += 1
+
+    def fn_of(qual: str):
+        f = tree.functions.get(qual)
+        if f is None:
+            raise AnalysisError(f"anchor {qual} not found")
+        return f
+
+    # ---- Maze: switch lambdas in step <-> MOVES used by the mask
+    f = fn_of(E + "routing.maze.env.Maze.step")
+    moves, msite = const_table(tree, E + "routing.maze.constants.MOVES")
+    sl = switch_lists(f.node)
+    if not sl:
+        raise AnalysisError("Maze.step: no lax.switch branch list found")
+    for i, br in enumerate(sl[0]):
+        if not isinstance(br, ast.Lambda):
+            continue
+        el = lambda_elts(br)
+        if el is None or i >= len(moves):
+            continue
+        off = offsets(el)
+        d = [delta_int(o) for _, o in off]
+        ok = d == list(moves[i])
+        ob(f"{f.module.relpath}:{br.lineno}", "routing.maze.env.Maze.step", f"switch branch {i} displacement == MOVES[{i}]", ok,
+           f"branch moves by {d}; MOVES[{i}] = {moves[i]} (the mask tests MOVES, step applies the branch)")
+    if only_mask_tables:
+        return n
+    # ---- unit-vector tables: rows are unit steps, i and i+2 cancel, pairwise distinct
+    for q in ("routing.maze.constants.MOVES", "routing.cleaner.constants.MOVES", "routing.sokoban.constants.MOVES",
+              "logic.sliding_tile_puzzle.constants.MOVES", "routing.snake.env.Snake.MOVES"):
+        t, site = const_table(tree, E + q)
+        rows = [tuple(r) for r in t]
+        unit = all(len(r) == 2 and sorted(abs(x) for x in r) == [0, 1] for r in rows)
+        cancel = len(rows) == 4 and all(rows[i][0] + rows[(i + 2) % 4][0] == 0 and rows[i][1] + rows[(i + 2) % 4][1] == 0 for i in range(4))
+        ob(site, q, "4 distinct unit moves; moves i and i+2 cancel", unit and cancel and len(set(rows)) == 4, f"{rows}")
+        exp = [CONVENTION[d] for d in ("up", "right", "down", "left")]
+        ob(site, q, "row order is Up, Right, Down, Left (documented action encoding)", rows == exp, f"{rows} vs {exp}")
+    # ---- Snake: Actions enum <-> MOVES rows
+    acts = enum_members(tree, E + "routing.snake.types.Actions")
+    t, site = const_table(tree, E + "routing.snake.env.Snake.MOVES")
+    for name, v in sorted(acts.items(), key=lambda kv: kv[1]):
+        d = direction_of(name)
+        ok = d is not None and 0 <= v < len(t) and tuple(t[v]) == CONVENTION[d]
+        ob(site, "routing.snake.env.Snake.MOVES", f"Actions.{name} = {v} selects the '{d}' displacement", ok, f"MOVES[{v}] = {t[v] if 0 <= v < len(t) else None}")
+    # ---- SlidingTile: named vectors
+    for name in ("UP", "RIGHT", "DOWN", "LEFT"):
+        t, site = const_table(tree, E + "logic.sliding_tile_puzzle.constants." + name)
+        ob(site, "logic.sliding_tile_puzzle.constants", f"{name} is the '{name.lower()}' displacement", tuple(t) == CONVENTION[name.lower()], f"{t}")
+    # ---- LBF: action constants <-> MOVES rows
+    t, site = const_table(tree, E + "routing.lbf.constants.MOVES")
+    for name in ("NOOP", "UP", "DOWN", "LEFT", "RIGHT", "LOAD"):
+        v, _ = const_table(tree, E + "routing.lbf.constants." + name)
+        ok = isinstance(v, int) and 0 <= v < len(t) and tuple(t[v]) == CONVENTION[name.lower()]
+        ob(site, "routing.lbf.constants.MOVES", f"{name} = {v} selects the '{name.lower()}' displacement", ok, f"MOVES[{v}] = {t[v] if isinstance(v, int) and 0 <= v < len(t) else None}")
+    # ---- Connector: constants <-> lambda order and names; generator pairs
+    f = fn_of(E + "routing.connector.utils.move_position")
+    lams = named_lambdas(f.node)
+    sl = switch_lists(f.node)
+    if not sl or not lams:
+        raise AnalysisError("connector.utils.move_position: switch list / named lambdas not found")
+    cvals = {nm: const_table(tree, E + "routing.connector.constants." + nm)[0] for nm in ("NOOP", "UP", "RIGHT", "DOWN", "LEFT")}
+    for i, br in enumerate(sl[0]):
+        nm = br.id if isinstance(br, ast.Name) else None
+        d = direction_of(nm) if nm else None
+        lam = lams.get(nm)
+        el = lambda_elts(lam) if lam is not None else None
+        delta = tuple(delta_int(o) for _, o in offsets(el)) if el else None
+        ok_name = d is not None and delta == CONVENTION[d]
+        ob(f"{f.module.relpath}:{lam.lineno if lam is not None else f.node.lineno}", "routing.connector.utils.move_position", f"lambda {nm} moves '{d}'", ok_name, f"displacement {delta}")
+        const_name = {"noop": "NOOP", "no_op": "NOOP"}.get(d, (d or "").upper())
+        ok_idx = const_name in cvals and cvals[const_name] == i
+        ob(f"{f.module.relpath}:{f.node.lineno}", "routing.connector.utils.move_position", f"branch {i} of the switch is the action constant {const_name}", ok_idx,
+           f"{const_name} = {cvals.get(const_name)}; branch index {i}")
+    g = None
+    for q, fi in tree.functions.items():
+        if q.startswith(E + "routing.connector.generator.") and q.endswith("._action_from_tuple"):
+            g = fi
+    if g is None:
+        raise AnalysisError("connector generator _action_from_tuple not found")
+    mult = None
+    tuples = None
+    for st in ast.walk(g.node):
+        if isinstance(st, ast.Assign) and isinstance(st.targets[0], ast.Name):
+            if st.targets[0].id == "action_multiplier" and isinstance(st.value, ast.Call) and st.value.args and isinstance(st.value.args[0], ast.List):
+                mult = [ast.unparse(x) for x in st.value.args[0].elts]
+            if st.targets[0].id == "actions" and isinstance(st.value, ast.Call) and st.value.args and isinstance(st.value.args[0], ast.List) and tuples is None:
+                tuples = []
+                for x in st.value.args[0].elts:
+                    lits = [fold(tree, g.module, c) for c in ast.walk(x) if isinstance(c, ast.Call) and ast.unparse(c.func).endswith("array")]
+                    tuples.append(tuple(lits[0]) if lits and lits[0] is not None else None)
+    if mult is None or tuples is None or len(mult) != len(tuples):
+        raise AnalysisError("connector generator _action_from_tuple: multiplier / tuple list not recognised")
+    for nm, tp in zip(mult, tuples):
+        d = direction_of(nm)
+        ob(g.loc(), "routing.connector.generator._action_from_tuple", f"displacement {tp} is paired with action {nm}", d is not None and tp == CONVENTION[d], f"'{d}' means {CONVENTION.get(d)}")
+    # ---- PacMan: the three copies of the player-move table agree
+    copies = []
+    for q in ("routing.pac_man.env.PacMan.player_step", "routing.pac_man.utils.player_step", "routing.pac_man.utils.ghost_move"):
+        fi = tree.functions.get(E + q)
+        if fi is None:
+            raise AnalysisError(f"anchor {E}{q} not found")
+        lams = named_lambdas(fi.node)
+        order = [[b.id for b in lst if isinstance(b, ast.Name)] for lst in switch_lists(fi.node)]
+        order = [o for o in order if o and all(x in lams for x in o)]
+        if not order:
+            raise AnalysisError(f"{q}: player move switch not found")
+        sig = []
+        for nm in order[0]:
+            el = lambda_elts(lams[nm])
+            off = offsets(el)
+            norm = []
+            for base, o in off:
+                base = base.replace("position[1]", "position.y").replace("position[0]", "position.x")
+                o = o.replace("steps", "1")
+                norm.append((base, o))
+            sig.append((nm, tuple(norm)))
+        copies.append((q, fi, sig))
+    ref = copies[0][2]
+    for q, fi, sig in copies[1:]:
+        ob(fi.loc(), q, "player move table equals the one in PacMan.player_step (order and displacements)", sig == ref,
+           "identical" if sig == ref else f"{sig} vs {ref}")
+    # ---- RobotWarehouse: Direction enum <-> forward displacement
+    dirs = enum_members(tree, E + "routing.robot_warehouse.types.Direction")
+    fi = tree.functions.get(E + "routing.robot_warehouse.utils_agent.get_new_position_after_forward")
+    if fi is None:
+        raise AnalysisError("robot_warehouse get_new_position_after_forward not found")
+    lams = named_lambdas(fi.node)
+    sl = switch_lists(fi.node)
+    if sl:
+        for i, br in enumerate(sl[0]):
+            lam = br if isinstance(br, ast.Lambda) else lams.get(getattr(br, "id", None))
+            nm = getattr(br, "id", None)
+            if lam is None:
+                continue
+            el = lambda_elts(lam)
+            if el is None:
+                continue
+            off = offsets(el)
+            delta = tuple(delta_int(o) for _, o in off)
+            want = [k for k, v in dirs.items() if v == i]
+            d = direction_of(want[0]) if want else None
+            ok = d is not None and len(delta) >= 2 and None not in delta[:2]
+            if ok:
+                # the warehouse stores (x, y) with x along axis 0: the displacement must be a unit step and
+                # opposite directions must cancel (checked below); name agreement is checked when the lambda is named
+                pass
+            ob(f"{fi.module.relpath}:{lam.lineno}", "routing.robot_warehouse.utils_agent.get_new_position_after_forward",
+               f"branch {i} (Direction.{want[0] if want else '?'}) is a unit step", ok and sorted(abs(x) for x in delta[:2]) == [0, 1], f"displacement {delta}")
+            if nm and direction_of(nm) and d:
+                ob(f"{fi.module.relpath}:{lam.lineno}", "routing.robot_warehouse.utils_agent.get_new_position_after_forward",
+                   f"branch {i} is the lambda named for Direction.{want[0]} and moves '{d}'", direction_of(nm) == d and tuple(delta[:2]) == CONVENTION[d],
+                   f"lambda {nm}, displacement {delta[:2]}, convention {CONVENTION[d]}")
+        deltas = []
+        for br in sl[0]:
+            lam = br if isinstance(br, ast.Lambda) else lams.get(getattr(br, "id", None))
+            el = lambda_elts(lam) if lam is not None else None
+            deltas.append(tuple(delta_int(o) for _, o in offsets(el))[:2] if el else None)
+        if len(deltas) == 4 and None not in deltas and all(None not in d for d in deltas):
+            cancel = all(deltas[i][0] + deltas[(i + 2) % 4][0] == 0 and deltas[i][1] + deltas[(i + 2) % 4][1] == 0 for i in range(4))
+            ob(fi.loc(), "routing.robot_warehouse.utils_agent.get_new_position_after_forward", "opposite directions cancel; four distinct steps",
+               cancel and len(set(deltas)) == 4, f"{deltas}")
+    return n
